@@ -345,15 +345,18 @@ def check(prop, tier, seed, replay=None):
 
     # 8. C17: the life of a request_uri under storage failures (Steps.tla: one fault at every storage call of push / use,
     #    then a second and third use)
+    #    C03: a code issued with a challenge, redeemed (without / with the right / with a wrong verifier) while a storage call fails
     steps_cov = None
-    if prop == "C17":
+    STEP_PARTS = {"C17": ("ScnParFault", ["ParAtMostOnce", "NoTokensOnFailure", "FailClosed", "RetryStillGuarded", "TypeOK"]),
+                  "C03": ("ScnPkceFault", ["NoTokensOnFailure", "FailClosed", "RetryStillGuarded", "TypeOK"])}
+    if prop in STEP_PARTS:
         import steps
-        part = steps.run_part(prop, binary, wd, "parfault", "ScnParFault", 1, "FaultKinds",
-                              ["ParAtMostOnce", "NoTokensOnFailure", "FailClosed", "RetryStillGuarded", "TypeOK"], "bfs", 4000 if tier == Q else 100000, seed)
+        scn, invs = STEP_PARTS[prop]
+        part = steps.run_part(prop, binary, wd, "stepfault", scn, 1, "FaultKinds", invs, "bfs", 4000 if tier == Q else 100000, seed)
         sv, snotes, sknown, sreplays = steps.report(prop, [part], binary, wd, findings)
         nviol += sv
         replays = replays + sreplays
-        steps_cov = {"scenarios": "ScnParFault", "max_faults": 1, "schedules_executed": len(part["histories"]), "schedules_total": part["total"],
+        steps_cov = {"scenarios": scn, "max_faults": 1, "schedules_executed": len(part["histories"]), "schedules_total": part["total"],
                      "design_model_check": part["mc"], "trace_validation": part["rep"]["stats"], "sample": part["histories"][0], "violation_replays": sreplays}
 
     # vacuity: the alphabet must have exercised the reasons this property owns
